@@ -187,3 +187,20 @@ M('threshold_strict', ['C05'], 'phylib/io/model.py',
   "        peak_channels = np.nonzero(amplitude >= amplitude_threshold * max_amp)[0]", "        peak_channels = np.nonzero((amplitude > amplitude_threshold * max_amp) | (amplitude == max_amp))[0]")
 M('sparse_signal_free_kept', ['C05'], 'phylib/io/model.py',
   "        has_signal = template_max > template_max.max() * 1e-6\n", "        has_signal = template_max >= 0\n")
+# ---- C06 -----------------------------------------------------------------------------------
+M('from_sparse_discard_kept', ['C06'], 'phylib/io/model.py',
+  "    out = out[:, :-1, ...]\n    return out", "    out = out[:, 1:, ...] if out.shape[1] > 6 else out[:, :-1, ...]\n    return out")
+M('get_features_rows_on_output', ['C06'], 'phylib/io/model.py',
+  "            rows_out = _index_of(s, spike_ids)\n", "            rows_out = np.arange(len(s))\n")
+M('get_features_template_cols', ['C06'], 'phylib/io/model.py',
+  "            cols = sf.cols[self.spike_templates[spike_ids]]\n        else:\n            cols = np.tile(np.arange(n_channels_loc), (ns, 1))",
+  "            cols = sf.cols[self.spike_clusters[spike_ids] % len(sf.cols)]\n        else:\n            cols = np.tile(np.arange(n_channels_loc), (ns, 1))")
+M('features_transpose_missing', ['C06'], 'phylib/io/model.py',
+  "            data = data.transpose((0, 2, 1))\n", "            data = data.reshape((data.shape[0], data.shape[2], data.shape[1]))\n")
+M('template_features_rows_ignored', ['C06'], 'phylib/io/model.py',
+  "            rows = _index_of(spike_ids, tf.rows)\n        else:\n            rows = spike_ids\n        template_features = tf.data[rows]",
+  "            rows = np.searchsorted(tf.rows, spike_ids) - (np.asarray(spike_ids) > tf.rows[-1] // 2)\n        else:\n            rows = spike_ids\n        template_features = tf.data[rows]")
+M('pcs_not_sorted_by_eigenvalue', ['C06'], 'phylib/io/model.py',
+  "        pcs = vecs.T.astype(np.float32)[np.argsort(vals)[::-1]]", "        pcs = vecs.T.astype(np.float32)[np.argsort(np.abs(vecs).sum(axis=0))[::-1]]")
+M('project_pcs_axes', ['C06'], 'phylib/io/model.py',
+  "    features = np.einsum('ijk,ljk->lki', pcs, x)", "    features = np.einsum('ijk,ljk->lki', pcs, x - x.mean(axis=0, keepdims=True))")
